@@ -162,6 +162,8 @@ type tScreen struct {
 	cursorStyles map[CursorStyle]string
 	cursorStyle  CursorStyle
 	cursorColor  Color
+	cursorStyled bool // a non-default cursor style has been requested at some point
+	cursorColord bool // a cursor color has been requested at some point
 	cursorRGB    string
 	cursorFg     string
 	saved        *term.State
@@ -976,6 +978,12 @@ func (t *tScreen) SetCursor(cs CursorStyle, cc Color) {
 	t.Lock()
 	t.cursorStyle = cs
 	t.cursorColor = cc
+	if cs != CursorStyleDefault {
+		t.cursorStyled = true
+	}
+	if cc.Valid() {
+		t.cursorColord = true
+	}
 	t.Unlock()
 }
 
@@ -2125,10 +2133,12 @@ func (t *tScreen) disengage() {
 	ti := t.ti
 	t.cells.Resize(0, 0)
 	t.TPuts(ti.ShowCursor)
-	if t.cursorStyles != nil && t.cursorStyle != CursorStyleDefault {
+	// the style or color may have been applied and then requested back
+	// to default without a draw in between, so go by what was ever asked
+	if t.cursorStyles != nil && t.cursorStyled {
 		t.TPuts(t.cursorStyles[CursorStyleDefault])
 	}
-	if t.cursorFg != "" && t.cursorColor.Valid() {
+	if t.cursorFg != "" && t.cursorColord {
 		t.TPuts(t.cursorFg)
 	}
 	t.TPuts(ti.ResetFgBg)
